@@ -41,6 +41,12 @@ pub fn run_line(line: &str, scratch: &str) -> String {
         "build" => by_width!(c, op_build, scratch),
         "hist" => by_width!(c, op_hist, scratch),
         "skf" => by_width!(c, op_skf, scratch),
+        "lo_cmd" => op_lo_cmd(c),
+        "lo_comp" => op_lo_comp(c),
+        "lo_snps" => op_lo_snps(c),
+        "lo_mid" => op_lo_mid(c),
+        "lo_out" => op_lo_out(c, scratch),
+        "lo_graph" => by_width!(c, op_lo_graph),
         "buildalign" => by_width!(c, op_buildalign, scratch),
         "covll" => op_covll(c),
         "covcut" => op_covcut(c),
@@ -747,4 +753,129 @@ fn op_buildalign<IntT: for<'a> UInt<'a>>(c: &Case, scratch: &str) -> String {
     let names: Vec<String> = seqs.iter().map(|s| s.0.clone()).collect();
     let _ = std::fs::remove_dir_all(&dir);
     format!("align[names={};cols={}]", join(&names), columns_of(&seqs))
+}
+
+// ------------------------------------------------------------------ C17 / C18: ska lo helpers
+
+use ska::skalo::verif_hooks as loh;
+
+fn chars_of(s: &str) -> Vec<char> {
+    s.chars().collect()
+}
+
+fn op_lo_cmd(c: &Case) -> String {
+    let col = chars_of(c.text("col"));
+    let n = col.len();
+    let (ok, ratio) = loh::check_missing_data(n, &col);
+    format!("ok:{} missing:{}", ok as u8, (ratio * n as f32).round() as usize)
+}
+
+fn op_lo_comp(c: &Case) -> String {
+    let col = chars_of(c.text("col"));
+    let out: String = loh::complement_snp(&col).into_iter().collect();
+    if out.is_empty() { ".".into() } else { out }
+}
+
+fn op_lo_snps(c: &Case) -> String {
+    let vars: Vec<(String, Vec<usize>)> = c
+        .list("vars")
+        .iter()
+        .map(|v| {
+            let (s, p) = v.split_once(':').unwrap();
+            let pos: Vec<usize> = if p.is_empty() { vec![] } else { p.split('+').map(|x| x.parse().unwrap()).collect() };
+            (s.to_string(), pos)
+        })
+        .collect();
+    join(&loh::get_potential_snp(&vars))
+}
+
+fn op_lo_mid(c: &Case) -> String {
+    let seqs: Vec<String> = c.list("seqs").iter().map(|s| s.to_string()).collect();
+    let (mids, last) = loh::extract_middle_bases(&seqs, c.usize("k"));
+    format!("{};{}", join(&mids), if last.is_empty() { ".".to_string() } else { last })
+}
+
+fn op_lo_out(c: &Case, scratch: &str) -> String {
+    let dir = format!("{scratch}/loout");
+    let _ = std::fs::remove_dir_all(&dir);
+    std::fs::create_dir_all(&dir).unwrap();
+    let genome = c.text("genome").as_bytes().to_vec();
+    let n = c.usize("n");
+    let names: Vec<String> = (0..n).map(|i| format!("s{i}")).collect();
+    let mut map: hashbrown::HashMap<u32, Vec<char>> = hashbrown::HashMap::new();
+    for v in c.list("vars") {
+        let (p, col) = v.split_once(':').unwrap();
+        map.insert(p.parse().unwrap(), chars_of(col));
+    }
+    let config = ska::skalo::utils::Config {
+        input_file: String::new(),
+        output_name: format!("{dir}/o"),
+        max_missing: 0.1,
+        max_depth: 4,
+        max_indel_kmers: 2,
+        nb_threads: 1,
+        reference_genome: None,
+    };
+    loh::create_fasta_and_vcf("g".to_string(), genome.clone(), names, map, &config);
+    let fasta = |p: &str| -> String {
+        match std::fs::read_to_string(p) {
+            Ok(t) => {
+                let seqs = parse_fasta_text(&t);
+                join(&seqs.iter().map(|s| if s.1.is_empty() { ".".to_string() } else { s.1.clone() }).collect::<Vec<_>>())
+            }
+            Err(_) => "none".into(),
+        }
+    };
+    let snps = fasta(&format!("{dir}/o_snps.fas"));
+    let pseudo = fasta(&format!("{dir}/o_pseudo_genomes.fas"));
+    let vcf = match std::fs::read_to_string(format!("{dir}/o_snps.vcf")) {
+        Ok(t) => {
+            let mut recs: Vec<String> = Vec::new();
+            for l in t.lines() {
+                if l.starts_with('#') {
+                    continue;
+                }
+                let f: Vec<&str> = l.split('\t').collect();
+                let alts: Vec<&str> = if f[4].is_empty() { vec![] } else { f[4].split(',').collect() };
+                let dec: String = f[9..]
+                    .iter()
+                    .map(|g| {
+                        if *g == "." {
+                            ".".to_string()
+                        } else if *g == "0" {
+                            f[3].to_string()
+                        } else {
+                            alts.get(g.parse::<usize>().unwrap() - 1).unwrap_or(&"?").to_string()
+                        }
+                    })
+                    .collect();
+                let mut sorted_alts: Vec<&str> = alts.clone();
+                sorted_alts.sort();
+                recs.push(format!("{}:{}:{}:{}", f[1], f[3], if sorted_alts.is_empty() { "~".to_string() } else { sorted_alts.join("/") }, dec));
+            }
+            join(&recs)
+        }
+        Err(_) => "none".into(),
+    };
+    let _ = std::fs::remove_dir_all(&dir);
+    format!("snps={} pseudo={} vcf={}", snps, pseudo, vcf)
+}
+
+/// `build_graph` (initialises the global pool: call at most once per process)
+fn op_lo_graph<IntT: for<'a> UInt<'a>>(c: &Case) -> String {
+    let a = make_array::<IntT>(c.usize("k"), c.flag("rc"), c.get("table"));
+    let (k, names, edges, samples) = ska::skalo::input::build_graph(a, 1);
+    let mut e: Vec<String> = Vec::new();
+    for (from, tos) in edges.iter() {
+        for t in tos {
+            e.push(format!("{}>{}", from, t));
+        }
+    }
+    e.sort();
+    let mut s: Vec<String> = samples
+        .iter()
+        .map(|(kmer, set)| format!("{}:{}", kmer, set.iter().map(|x| x.to_string()).collect::<Vec<_>>().join("+")))
+        .collect();
+    s.sort();
+    format!("k={} n={} edges={} colours={}", k, names.len(), join(&e), join(&s))
 }
